@@ -30,7 +30,7 @@ structure PropMd where
 deriving DecidableEq, Repr, Inhabited
 
 inductive Obj where
-  | axis (name : String) (min max : Option Int)
+  | axis (name : String) (min max : Option String)   -- min/max: opaque float tokens
   | axesList (items : List Addr)
   | propsDict (items : List (String × PropMd))
   | geffMeta (axes : Option Addr) (nodeProps edgeProps : Addr) (directed : Bool)
@@ -103,7 +103,7 @@ def addOrUpdatePropsMetadata (h : Heap) (m : Addr) (propsMd : List PropMd) (node
 inductive AxisData where
   | absent                       -- `axis.name not in node_props`: ValueError
   | empty                        -- `len(values) == 0`: the axis is kept as it is
-  | range (lo hi : Int)          -- np.min / np.max of the unmasked values
+  | range (lo hi : String)       -- np.min / np.max of the unmasked values (opaque tokens)
 deriving DecidableEq, Repr
 
 /-- the loop of `compute_and_add_axis_min_max` (repaired): every axis that receives a min/max is
